@@ -153,6 +153,26 @@ for k, t in R7TXT.items():
     lv, eng, tech, text, note = checks[k]
     checks[k] = (lv, eng, tech, text + t, note)
 
+R8TXT = {
+ "C02": " Eighth round: many-keys history (4096 / 131072 key pairs, returning to earlier ones); the MIC of every single-bit-different FCnt is rejected and validation leaves the frame unchanged.",
+ "C04": " Eighth round: many-keys history of join / rejoin / join-accept MICs; six-mask CFLists.",
+ "C05": " Eighth round: many-sessions history (1024 / 32768 devices, frames of a batch of up to 700 devices all sent before the first is received); tamper walks over frames up to the 255-byte maximum.",
+ "C06": " Eighth round: the registry part starts from the reset registry and judges the proprietary range 0x80..0xFF too.",
+ "C07": " Eighth round: every registered size 1..300 framed as FOpts and as a port-0 payload; one MACCommand value used twice over all (direction, CID) pairs.",
+ "C09": " Eighth round: application-layer decoders on every length 41..512 x leading CID x 3 fillers (several hundred commands).",
+ "C10": " Eighth round: reuse histories also with the caller setting every exported scalar between the decodes; MACCommand reuse across directions.",
+ "C13": " Eighth round: 40 additions of each kind, default channels read through the accessors after each.",
+ "C14": " Eighth round: plans of 17..128 channels (12 sizes x 6 network x 6 device patterns); beyond 96 channels, where the specification defines no block meaning for ChMaskCntl 6 and 7, the library's own apply function is the device.",
+ "C15": " Eighth round: histories of 32 (thorough 36) operations: two spines of additions with one (thorough two) deviations over the whole alphabet at every position.",
+ "C16": " Eighth round: many-devices history (1024 / 32768 devices with their own keys through one handler).",
+ "C17": " Eighth round: HEXBytes of every length 0..600 and 1..64 KiB; many-KEKs history.",
+ "C18": " Eighth round: many-keys history of the five TS005 derivations.",
+ "C20": " Eighth round: durations over the whole int64 range (+-2^k and neighbours, the ends, around the Unix-nanosecond limit).",
+}
+for k, t in R8TXT.items():
+    lv, eng, tech, text, note = checks[k]
+    checks[k] = (lv, eng, tech, text + t, note)
+
 def load_extra():
     p = os.path.join(V, "bin", "manifest_table.json")
     if os.path.exists(p):
